@@ -792,7 +792,7 @@ static int has (const char *list, const char *w)
 int main (int argc, char **argv)
 {
   const char *mode, *pool, *feat;
-  int nclients, i, tpc = 0, npool = 0, bad = 0;
+  int nclients, i, tpc = 0, npool = 0, bad = 0, nnc_size = 8;
   long duration, wd_ms;
   unsigned int seed, flags;
   pthread_t cth[64], rth, mth, wth;
@@ -855,7 +855,10 @@ int main (int argc, char **argv)
   la.sin_family = AF_INET; la.sin_port = 0; la.sin_addr.s_addr = htonl (INADDR_LOOPBACK);
   ops[n].option = MHD_OPTION_NOTIFY_COMPLETED; ops[n].value = (intptr_t) &completed_cb; ops[n++].ptr_value = NULL;
   ops[n].option = MHD_OPTION_NOTIFY_CONNECTION; ops[n].value = (intptr_t) &conn_cb; ops[n++].ptr_value = NULL;
-  ops[n].option = MHD_OPTION_NONCE_NC_SIZE; ops[n].value = 8; ops[n++].ptr_value = NULL;
+  /* 8 slots: almost every check meets a slot that another nonce has taken over (collisions); 64 slots: most checks
+   * find their nonce and go through the nonce-counter bookkeeping */
+  nnc_size = (0 != ((seed + (unsigned) npool + (unsigned) strlen (mode)) & 1u)) ? 8 : 64;
+  ops[n].option = MHD_OPTION_NONCE_NC_SIZE; ops[n].value = nnc_size; ops[n++].ptr_value = NULL;
   ops[n].option = MHD_OPTION_DIGEST_AUTH_RANDOM; ops[n].value = 32; ops[n++].ptr_value = (void *) rnd;
   ops[n].option = MHD_OPTION_PER_IP_CONNECTION_LIMIT; ops[n].value = 10000; ops[n++].ptr_value = NULL;
   ops[n].option = MHD_OPTION_CONNECTION_LIMIT; ops[n].value = 512; ops[n++].ptr_value = NULL;
@@ -948,13 +951,13 @@ int main (int argc, char **argv)
             "susp=%ld resume=%ld auth_chk=%ld auth_req=%ld cb_blocks=%ld post=%ld opt=%ld abort=%ld handler=%ld completed=%ld "
             "conn_started=%ld conn_closed=%ld not_closed=%ld double_close=%ld double_complete=%ld body_mismatch=%ld "
             "pinadd=%d pinadd_ms=%ld quietresume=%d quietresume_ms=%ld fd=%ld auth_ok_sent=%ld auth_ok=%ld auth_stale=%ld "
-            "auth_respwrong=%ld auth_noncewrong=%ld ip_addrs=%ld ip_bind_fail=%ld panic=0 bad=%d\n",
+            "auth_respwrong=%ld auth_noncewrong=%ld nnc_size=%d ip_addrs=%ld ip_bind_fail=%ld panic=0 bad=%d\n",
             mode, pool, nclients, seed, (long) (t1 - t0), n_req_ok, n_req_fail, n_conn_add, n_conn_tcp, n_add_fail,
             n_susp, n_resume, n_auth_chk, n_auth_req, n_cb_blocks, n_post, n_opt, n_abort, n_handler, n_completed,
             n_started_cb, n_closed_cb, not_closed, n_double_close, n_double_complete, n_body_mismatch,
             sc_pinadd, sc_pin_ms, sc_quiet, sc_quiet_ms, n_fd, n_auth_ok_sent, auth_res[(MHD_DAUTH_OK + 40) % 32],
             auth_res[(MHD_DAUTH_NONCE_STALE + 40) % 32], auth_res[(MHD_DAUTH_RESPONSE_WRONG + 40) % 32],
-            auth_res[(MHD_DAUTH_NONCE_WRONG + 40) % 32], ips, n_ip_bind_fail, bad);
+            auth_res[(MHD_DAUTH_NONCE_WRONG + 40) % 32], nnc_size, ips, n_ip_bind_fail, bad);
     fflush (stdout);
   }
   return bad ? 4 : 0;
